@@ -256,6 +256,45 @@ Definition call_guard (c : config) (n : native) : call_outcome :=
   | None => CallAllowed
   end.
 
+(* ---------------------------------------------------------------- what a native can do when it is CALLED *)
+(* Extracted.native_effects: the effects found in the body of every registered native (with the same-file
+   helpers it calls); fs / net / process are the ones the property protects *)
+Definition bit_of_effect (e : string) : option string :=
+  if String.eqb e "fs" then Some "fs" else if String.eqb e "net" then Some "net"
+  else if String.eqb e "process" then Some "exec" else None.
+Definition effects_of (n : native) : list string :=
+  match find (fun p => native_eqb (fst p) n) native_effects with Some p => snd p | None => [] end.
+(* the capability bits a native tests at the top of its body, before anything else happens *)
+Definition percall_bits (n : native) : list string :=
+  (if nmem n percall_guarded then match sassoc (fst n) gated_arms with Some bit => [bit] | None => [] end else [])
+  ++ (if nmem n exec_guarded then ["exec"] else []).
+(* n, called under configuration c by ANY route (direct call, alias, callback, re-export, bytecode),
+   gets as far as performing effect e *)
+Definition can_perform (c : config) (n : native) (e : string) : bool :=
+  smem e (effects_of n) && forallb (cap_bit c) (percall_bits n).
+Definition gates_cover_effects : bool :=
+  forallb (fun p => forallb (fun e => match bit_of_effect e with Some b => smem b (percall_bits (fst p)) | None => true end) (snd p))
+          native_effects.
+
+(* the places in the source where natives are put into a VM, by (file, primitive), with how many
+   calls are expected there and why each is covered by the model *)
+Definition known_registration : list ((string * string) * nat) :=
+  [ (("runtime/src/stdlib/mod.rs", "alloc_native"), 1);             (* register_native: the helper every std module's reg! macro calls (module_natives) *)
+    (("runtime/src/stdlib/mod.rs", "module_register"), 9);          (* the arms of register_std_module (register_arms, gated_arms) *)
+    (("runtime/src/vm/builtins.rs", "alloc_native"), 6);            (* builtin_natives *)
+    (("runtime/src/vm/init.rs", "module_register"), 1);             (* auto_registered (string; the others through the table read by the translator) *)
+    (("runtime/src/vm/init.rs", "register_builtins"), 1);
+    (("runtime/src/vm/alloc.rs", "native_registry_insert"), 2);     (* inside alloc_native / alloc_foreign themselves *)
+    (("driver/src/modules/loader/stdlib_register.rs", "register_std_module"), 1);   (* LStd / LNames requests *)
+    (("driver/src/modules/loader/native_load.rs", "alloc_foreign"), 1);             (* after native_module_decision says ERegistered *)
+    (("cli/src/cli/commands/run.rs", "alloc_foreign"), 1) ].                        (* bundled module, after the same decision *)
+Definition reg_key (s : string * string * string) : string * string := match s with (f, _, p) => (f, p) end.
+Definition rkey_eqb (a b : string * string) : bool := String.eqb (fst a) (fst b) && String.eqb (snd a) (snd b).
+Definition unknown_registrations (sites : list (string * string * string)) : list (string * string) :=
+  let ks := map reg_key sites in
+  filter (fun k => Nat.ltb (match find (fun p => rkey_eqb (fst p) k) known_registration with Some p => snd p | None => 0 end)
+                           (List.length (filter (rkey_eqb k) ks))) ks.
+
 (* ---------------------------------------------------------------- native modules *)
 Definition check_native_capability (c : config) (cap : string) : bool :=
   if smem cap (denied c) then false
